@@ -131,6 +131,16 @@ Example C13_stop_undone_within_one_cycle_nonvacuous :
 Proof. exact stop_undone_timed_nonvacuous. Qed.
 Print Assumptions C13_stop_undone_within_one_cycle_nonvacuous.
 
+(* ... and in every run, while the handler is open every hunted MAC has a running loop of its own whose
+   next wake-up sends the forged announcement to exactly that MAC: with the fairness hypothesis, each
+   hunted host is re-poisoned every ticker period *)
+Theorem C13_hunted_has_loop : forall c evs m,
+  let s := final c init_state evs in
+  closed s = false -> hunted s m = true ->
+  exists i a, loop_is s i a true /\ amac a = m /\ step c s (Wake i) = (s, [announce c m]).
+Proof. exact hunted_has_loop. Qed.
+Print Assumptions C13_hunted_has_loop.
+
 (* a loop that has returned stays returned and silent, whatever happens (any state) *)
 Theorem C13_dead_loop_silent : forall c s e i a,
   loop_is s i a false ->
